@@ -9,6 +9,7 @@ JUNK = ["x", "1", "def", "}", "{", "garbage garbage", "def x {", "return", ";", 
         "/* c */ x", "// c\nx", ",", "}}", "weighted 1", "else { return 1 weighted 1 }"]  # fmt: skip
 
 
+COMMENT_SEPS = ["\r", "\x0b", "\x0c", "\x1c", "\x1d", "\x1e", "\x85", "\u2028", "\u2029", " "]
 WRAPS = [("/*/", "/* */"), ("/*/", "*/"), ("/*/", "/*/"), ("/*", "/* */"), ("/*/", "/**/"), ("/**/", "*/"), ("/*/ /*/", "*/"), ("//*", "*/"), ("/*/", "// */\n")]
 
 
@@ -41,6 +42,12 @@ def mutants(lexs, depth1=True):
                 continue
             for op, cl in WRAPS:
                 yield "comment-wrap", J(lexs[:i] + [op] + lexs[i:j] + [cl] + lexs[j:])
+    # the tail of the text put behind a line comment, followed by characters that str.splitlines() treats as line ends but the
+    # language does not (the comment runs to the next line feed): the tokens behind it stay commented out
+    for i in sorted({1, 2, n // 2, n - 2, n - 1} & set(range(1, n))):
+        for sep in COMMENT_SEPS:
+            yield "comment-out", J(lexs[:i]) + " // note" + sep + J(lexs[i:])
+            yield "comment-out", J(lexs[:i]) + " // note" + sep + J(lexs[i:]) + "\n"
     base = J(lexs)
     for j in JUNK:
         yield "prefix", j + " " + base
